@@ -10,14 +10,14 @@ abbrev Bytes := List UInt8
 inductive IoKind where
   | unexpectedEof | invalidData | connectionReset | connectionAborted | timedOut | brokenPipe
   | permissionDenied | other | wouldBlock | interrupted | invalidInput
-  deriving DecidableEq, Repr, BEq, Inhabited
+  deriving DecidableEq, Repr, Inhabited
 
 /-- `IppParseError` -/
 inductive Err where
   | io (k : IoKind)
   | invalidTag (t : UInt8)
   | invalidCollection
-  deriving DecidableEq, Repr, BEq, Inhabited
+  deriving DecidableEq, Repr, Inhabited
 
 /-- Result of running a piece of the implementation: a value, an error *value*, a Rust panic,
     or (model artefact) exhausted fuel.  The totality theorems show the last two never occur. -/
